@@ -206,7 +206,7 @@ def creation_recursion(case: dict) -> bool:
 # ---------------------------------------------------------------------------------------
 
 PRELUDE = '''
-import datetime, sys
+import datetime, decimal, sys
 from dataclasses import dataclass, field
 from typing import Annotated, Any, Dict, Generic, List, NewType, Optional, Self, Tuple, TypeVar
 from mashumaro import DataClassDictMixin, pass_through
@@ -1111,15 +1111,17 @@ def run(ctx: vlib.Ctx):
                       kernels=["K5"])
     br2 = ctx.theorems("props/C10_single.vo", ["C10_single_application_partial", "C10_single_application_refuted"], kernels=["K5"])
     br3 = ctx.theorems("props/C10_fields.vo", ["C10_field_decl"], kernels=["K5"])
-    proofs_ok = br.ok and br2.ok and br3.ok and ctx.kernel_report.get("K5", {}).get("ok")
+    br4 = ctx.theorems("props/C10_positions.vo", ["C10_positions", "C10_dialect_reaches", "C10_format_dialect_everywhere"],
+                       kernels=["K5", "K5P", "K8"])
+    proofs_ok = br.ok and br2.ok and br3.ok and br4.ok and all(ctx.kernel_report.get(k, {}).get("ok") for k in ("K5", "K5P", "K8"))
     if proofs_ok and not ctx.quick():
         # second opinion: the independent checker on the compiled property files
         with vlib.Lock("build"):
             rc, out, _ = vlib.run(["timeout", "600", "coqchk", "-silent", "-o", "-Q", "theories", "Verif", "-Q", "gen", "VerifGen",
-                                   "-Q", "props", "VerifProps", "VerifProps.C10_precedence", "VerifProps.C10_single", "VerifProps.C10_fields"],
+                                   "-Q", "props", "VerifProps", "VerifProps.C10_precedence", "VerifProps.C10_single", "VerifProps.C10_fields", "VerifProps.C10_positions"],
                                   cwd=vlib.COQ, timeout=640)
         ok = rc == 0 and "Axioms: <none>" in out
-        ctx.obligation("coqchk -o (C10_precedence, C10_single, C10_fields): no axioms", ok, out[-600:])
+        ctx.obligation("coqchk -o (C10_precedence, C10_single, C10_fields, C10_positions): no axioms", ok, out[-600:])
         if not ok:
             ctx.not_shown("coqchk", out[-1500:])
 
@@ -1215,8 +1217,90 @@ def run(ctx: vlib.Ctx):
     if not done:
         compare("tagged-classes-vs-model", "PyK_strat Strategies", "", COQ_DEFS_MODEL, "model_ok", ["theories/Strategies.vo"])
 
+    paths_part(ctx, bool(proofs_ok))
+
+
+def _path_worker(src):
+    try:
+        return exec_source(src)
+    except Exception as e:  # noqa: BLE001
+        return {"class_error": "harness: " + type(e).__name__ + ": " + str(e)[:200]}
+
+
+def paths_part(ctx: vlib.Ctx, proofs_ok: bool):
+    """positions below a field (NewType / Optional / collection element / nested dataclass / Self child):
+    real classes vs K5PKernel.compile + Positions.ref_compile (in Coq) and vs the property-text oracle."""
+    from harness.props import c10_paths as cp
+    rng = ctx.rng
+    n = ctx.budget(450, 5000) + (0 if proofs_ok else 600)
+    cases = [cp.gen_path_case(rng) for _ in range(n)]
+    srcs = [cp.build_source(c, PRELUDE) for c in cases]
+    if len(cases) > 1500:
+        with multiprocessing.get_context("fork").Pool(8) as pool:
+            results = pool.map(_path_worker, srcs, chunksize=64)
+    else:
+        results = [_path_worker(s) for s in srcs]
+    coq_cases, descr = [], []
+    for case, src, res in zip(cases, srcs, results):
+        ctx.hist("path_links", "+".join(case["links"]) or "none")
+        ctx.hist("path_type_depth", str(len(cp.Term(case["type"]).nodes)))
+        for d in ("ser", "de"):
+            obs = {"error": res["class_error"]} if "class_error" in res else res[d]
+            exp = cp.expected_obs(case, d)
+            w, node = cp.oracle(case, d)
+            ctx.hist("path_winner_node", "builtin" if w is None else f"node{node}")
+            ctx.count(("path", case["entry"], repr(case["type"]), tuple(case["links"]), tuple(case["supports"]),
+                       tuple(sorted(case["slots"].items())), d), nontrivial=bool(case["slots"]))
+            coq_cases.append(cp.coq_case(case, d, obs))
+            descr.append((case, d, obs))
+            if obs != exp:
+                ctx.fail(f"position precedence: {case['entry']} {d} type={case['type']} links={case['links']} "
+                         f"supports={case['supports']} slots={case['slots']}: expected {exp}, observed {obs}",
+                         {"entry": case["entry"], "dir": d, "kind": "path", "case": case, "source": src,
+                          "observed": obs, "expected": exp},
+                         {"kind": "position-precedence", "entry": case["entry"], "dir": d})
+    for case, d, obs in descr[:2]:
+        ctx.sample({"path_case": {k: case[k] for k in ("entry", "type", "links", "supports", "slots")}, "dir": d, "observed": obs}, limit=8)
+
+    def compare(name, imports, gen_imports, defs, needs):
+        bad, log = vlib.coq_bad_idx(name.replace("-", "_"), imports, gen_imports, defs, coq_cases, "path_ok", "path_case",
+                                    shard=400, needs=needs)
+        if bad is None:
+            ctx.correspondence(name, len(coq_cases), -1, log)
+            ctx.not_shown("correspondence " + name, log)
+            return False
+        det = [f"{descr[i][0]['entry']} {descr[i][1]} type={descr[i][0]['type']} links={descr[i][0]['links']} "
+               f"supports={descr[i][0]['supports']} slots={descr[i][0]['slots']} observed={descr[i][2]}" for i in bad[:5]]
+        ctx.correspondence(name, len(coq_cases), len(bad), str(det))
+        if bad:
+            ctx.not_shown("correspondence " + name, str(det))
+        return True
+
+    done = False
+    kr = ctx.kernel_report
+    if all(kr.get(k, {}).get("ok") for k in ("K5", "K5P", "K8")):
+        kb = vlib.coq_make(["theories/K5PKernel.vo"])
+        if kb.ok:
+            done = compare("positions-real-classes-vs-compile-and-model",
+                           "PyK_strat OptProj Strategies Positions K5Kernel K5PKernel",
+                           "From VerifGen Require Import K5.", cp.COQ_DEFS + cp.COQ_OK_KERNEL, ["theories/K5PKernel.vo"])
+        else:
+            ctx.notes.append("K5PKernel.v does not build against the translated kernels: " + (kb.error or "")[:300])
+    if not done:
+        compare("positions-real-classes-vs-model", "PyK_strat OptProj Strategies Positions", "", cp.COQ_DEFS + cp.COQ_OK_MODEL,
+                ["theories/Positions.vo"])
+
 
 def replay(rep: dict) -> int:
+    if rep.get("kind") == "path":
+        res = exec_source(rep["source"])
+        obs = {"error": res["class_error"]} if "class_error" in res else res[rep["dir"]]
+        print("observed", obs, "expected", rep["expected"])
+        if obs != rep["expected"]:
+            print("REPRODUCED")
+            return 1
+        print("not reproduced")
+        return 0
     res = exec_source(rep["source"])
     d = rep["dir"]
     obs = {"error": res["class_error"]} if "class_error" in res else res[d]
